@@ -18,7 +18,7 @@ import (
 	"verif/harness/ev"
 )
 
-var rec = ev.New("C11", "real-runtime Fatal path: a re-executed child logs N messages through a diode.Writer (waiter or poller mode, optionally wrapped in a FilteredLevelWriter / MultiLevelWriter) and then calls Logger.Fatal (the fatal event written, or filtered out by a child logger's level, the global level or a rejecting sampler); also with a wrapped writer so slow that draining takes ~6 s; the parent requires exit status 1 and all N messages plus the fatal message on the child's stdout, in order")
+var rec = ev.New("C11", "real-runtime Fatal path: a re-executed child logs N messages through a diode.Writer (waiter or poller mode, optionally wrapped in a FilteredLevelWriter / MultiLevelWriter, also beside a second diode whose destination rejects every message) and then calls Logger.Fatal (the fatal event written, or filtered out by a child logger's level, the global level or a rejecting sampler); also with a wrapped writer so slow that draining takes ~6 s; the parent requires exit status 1 and all N messages plus the fatal message on the child's stdout, in order")
 
 func TestMain(m *testing.M) {
 	if c := os.Getenv("VERIF_C11_CHILD"); c != "" {
@@ -50,6 +50,12 @@ func child(c string) {
 		l = zerolog.New(&zerolog.FilteredLevelWriter{Writer: zerolog.LevelWriterAdapter{Writer: dw}, Level: zerolog.TraceLevel})
 	case "multi":
 		l = zerolog.New(zerolog.MultiLevelWriter(dw))
+	case "multi2fail":
+		// two diodes behind one fan-out; the first one's destination rejects every message: the second
+		// diode must still be drained when Fatal closes the fan-out
+		zerolog.ErrorHandler = func(error) {}
+		bad := diode.NewWriter(failingSink{}, 4096, poll, func(int) {})
+		l = zerolog.New(zerolog.MultiLevelWriter(bad, dw))
 	default:
 		l = zerolog.New(dw)
 	}
@@ -72,6 +78,11 @@ func child(c string) {
 	}
 	fmt.Println("SURVIVED")
 }
+
+// failingSink rejects everything.
+type failingSink struct{}
+
+func (failingSink) Write(p []byte) (int, error) { return 0, fmt.Errorf("sink is down") }
 
 // slowWriter takes its time over every line (a terminal, a pipe to a slow consumer, a network sink).
 type slowWriter struct {
@@ -121,7 +132,7 @@ func TestFatalDrains(t *testing.T) {
 		}
 	}()
 	for _, mode := range []string{"waiter", "poller"} {
-		for _, wrap := range []string{"plain", "filtered", "multi"} {
+		for _, wrap := range []string{"plain", "filtered", "multi", "multi2fail"} {
 			for _, n := range []int{0, 1, 7, 500, 3000} {
 				for rep := 0; rep < 3; rep++ {
 					// the third repetition of the small cases filters the fatal event out (by a child
@@ -180,7 +191,7 @@ func TestFatalDrains(t *testing.T) {
 			}
 		}
 	}
-	rec.Sample(map[string]interface{}{"campaign": "Fatal path in a re-executed child", "modes": []string{"waiter", "poller"}, "wraps": []string{"plain", "filtered", "multi"}, "pending": []int{0, 1, 7, 500, 3000}})
+	rec.Sample(map[string]interface{}{"campaign": "Fatal path in a re-executed child", "modes": []string{"waiter", "poller"}, "wraps": []string{"plain", "filtered", "multi", "multi2fail"}, "pending": []int{0, 1, 7, 500, 3000}})
 }
 
 func tailStr(s string) string {
